@@ -150,8 +150,8 @@ def _pair_scenarios(chk: Check, cids: list[str], pins: set) -> list[dict]:
 def run(chk: Check) -> None:
     cids = rule_detected_codemods()
     vectors = [v for v in progspace.enumerate_vectors(chk, with_args=True)
-               if v["mult"] == 1 and v["imp"] == "asis" and v["layout"] != "bom" and v["args"] in ("asis", "same-line-pair")]
-    scenarios = progspace.build_batches(chk, codemods=set(cids), vectors=vectors, seeds_per_codemod=chk.pick(3, 10), vectors_per_seed=chk.pick(6, 30),
+               if v["mult"] == 1 and v["imp"] == "asis" and v["layout"] != "bom" and v["args"] in ("asis", "same-line-pair", "list-elements", "multiline")]
+    scenarios = progspace.build_batches(chk, codemods=set(cids), vectors=vectors, seeds_per_codemod=chk.pick(3, 10), vectors_per_seed=chk.pick(7, 30), with_extra=True,
                                         step_extra={"keep_events": True, "keep_after": True, "keep_contents": True})
     for scn in scenarios:
         argv = scn["steps"][0]["argv"]
